@@ -83,6 +83,11 @@ def shaped(g):
         sp = g.pair(**dict(BASE, embeds=0.0, shadow=0.0, multi=0.0, unexported=0.0, names=["ident"], kinds=["same", "conv", "sub", "each"], n=(4, 6),
                            func_over=0.0, mapper_idle=0.0, diamond=0.0, selfembed=0.0, manual=0.0))
         out.append(("new-" + sd, mapgen.to_new(g.rng, sp, sd, setonly=0.0, getonly=0.1, embed=0.7, newmark=0.5)))
+    # hand-written constructors next to types that are NOT shoot-new types (seeded change C09-14): left alone; the sides embed pointer
+    # structs with mapped promoted fields that such a constructor does not allocate
+    for side, style in (("dest", "plain"), ("src", "plain"), ("dest", "grouped"), ("src", "unnamed"), ("dest", "plain"), ("src", "grouped")):
+        out.append(("hand-written-ctor-" + side, g.pair(**dict(BASE, kinds=["same", "conv"], names=["ident"], n=(4, 6), embeds=1.0, ptr_embed=1.0, deep=0.6,
+                                                               handctor=1.0, handctor_side=side, handctor_style=style, diamond=0.0, selfembed=0.0))))
     # finding region: mapper embedded by pointer, methods used
     out.append(("ptr-mapper", g.pair(**dict(BASE, kinds=["func"], n=(2, 3), mapper_ptr=1.0, flags={"way": "both"}))))
     out.append(("ptr-mapper-idle", g.pair(**dict(BASE, kinds=["same", "sub"], n=(2, 3), mapper_ptr=1.0, mapper_idle=1.0, func_over=0.0))))
